@@ -7,6 +7,7 @@ from pyvc.unit import unit
 
 APKF = "androguard/core/apk/__init__.py"
 META = {
+    "technique": 'contract-based deductive verification: symbolic execution of the real functions against sidecar contracts (z3/cvc5) for the proved units; bounded contract evaluation (enumerated scope / independent writer) for the rest',
     "level": "other",
     "partial": True,
     "level_text": "Guard structure by exhaustive path enumeration on opaque ASN.1 stand-ins: verify_signer_info_against_sig_file "
